@@ -204,6 +204,18 @@ def check(run: common.Run):
     valid_srcs = {k: [s for s in v if is_valid(s)] for k, v in fam.items()}
     step = {"quick": {"repo": 6, "functions": 2, "constructs": 1, "eof": 1, "tabs": 1, "constants": 7},
             "thorough": {}}[run.tier]
+    # blank-line runs first (seed C03-b): through format_code and through every text / direct-edit stage alone
+    text_stages = sorted(n for n in drv.DIRECT_EDIT_STAGES
+                         if n.split(".")[0] in ("fixes", "rmspace") or n == "abstractions.simplify_if_control_flow")
+    for i, s in enumerate(valid_srcs["blank_runs"]):
+        for o in ([sw.OPTION_COMBOS[0], sw.OPTION_COMBOS[7]] if run.tier == "quick" else sw.OPTION_COMBOS):
+            jid = len(jobs)
+            jobs.append((jid, s, o, 1))
+            meta[jid] = ("format_code", "blank_runs")
+        for n in text_stages:
+            jid = len(jobs)
+            jobs.append((jid, s, n, 1))
+            meta[jid] = ("rule", n)
     for name in ("tabs", "constructs", "eof", "functions", "repo", "constants"):
         srcs = valid_srcs[name][::step.get(name, 1)]
         for i, s in enumerate(srcs):
